@@ -68,9 +68,20 @@ def coq_build():
         rc, out = sh('coq_makefile -f _CoqProject -o Makefile', cwd=COQ)
         if rc != 0:
             raise BuildError('coq_makefile failed', out)
-    rc, out = sh('timeout 3000 make -j16', cwd=COQ, timeout=3100)
+    rc, out = sh('timeout 3000 make -k -j16', cwd=COQ, timeout=3100)
     if rc != 0:
-        raise BuildError('coq build failed', out[-4000:])
+        # keep going: a proof file that does not compile must only affect the properties that depend on it.
+        # Remove the (possibly stale) .vo of every failed target so that dependents cannot silently use an old version.
+        failed = re.findall(r'\[Makefile:\d+: (\S+)\.vo\] Error', out)
+        for t in failed:
+            for ext in ('.vo', '.vos', '.vok', '.glob'):
+                try:
+                    os.remove(os.path.join(COQ, t + ext))
+                except OSError:
+                    pass
+        if not failed or any('/' not in t for t in failed):
+            raise BuildError('coq build failed (model file)', out[-4000:])
+        return 'FAILED: ' + ','.join(failed) + '\n' + out[-3000:]
     return out
 
 def props_compile(pid):
